@@ -85,3 +85,184 @@ PROPS["DISP"] = dict(
     kani=dict(quick=["utils_dispose_h.rs::" + h for h in _DISP]),
     trusted_base=[A_TOOLS], kani_flags=["--no-assertion-reach-checks"],
 )
+
+
+# =================================================================================================
+# Real properties, assembled from the unit lists above
+# =================================================================================================
+def _h(f, names):
+    return [f + "::" + n for n in names]
+
+_RGF = "utils_rg_h.rs"
+_RG_LEMMAS = ["rg_rely_reflexive_transitive", "rg_safety_lemmas"]
+_RG_STRONG = ["rg_alloc", "rg_increment_strong_owner", "rg_increment_strong_protected", "rg_increment_strong_unguarded",
+              "rg_is_not_destructed", "rg_decrement_strong_noguard", "rg_decrement_strong_guard", "rg_try_destruct"]
+_RG_WEAK = ["rg_increment_weak_owner", "rg_increment_weak_protected", "rg_decrement_weak_noguard", "rg_decrement_weak_guard",
+            "rg_try_dealloc", "rg_dealloc_frees"]
+_DISP_CORE = ["dispose_chain_level", "dispose_leaf_any_depth", "dispose_null", "dispose_entry"]
+_MODS_ALL = ["utils_state_h.rs", "utils_rg_h.rs", "utils_dispose_h.rs", "internal_h.rs", "strong_h.rs", "weak_h.rs"]
+_FAST = ["--no-assertion-reach-checks", "--no-assert-contracts"]
+_L1_FUNCS = ["RcInner::{alloc,dealloc,increment_strong,is_not_destructed,decrement_strong,try_destruct,increment_weak,decrement_weak,try_dealloc}",
+             "dispose", "dispose_general_node (one level: chain node at depth 1023 + leaf at symbolic depth)"]
+_STUTTER = ("CAS-retry loops (decrement_strong, is_not_destructed, try_destruct, increment_weak, increment_strong, cascade CAS, AtomicRc/AtomicWeak CAS): "
+            "unbounded by the stutter lemma (DESIGN 2.5) - environment interference budget B (quick 2, thorough 3), unwound B+4 with unwinding assertions on; "
+            "a stated assumption (A-RG), not a verifier-closed loop")
+
+PROPS["C01"] = dict(
+    title="a strong reference keeps its object alive", level="proof",
+    modules=_MODS_ALL, contract_groups=["state", "modular"],
+    kani=dict(quick=_h(_RGF, _RG_LEMMAS + _RG_STRONG) + _h("utils_dispose_h.rs", ["dispose_chain_level", "dispose_leaf_any_depth"])
+              + _h("strong_h.rs", ["l2_rc_ledger", "l2_rc_new_deref", "c08_compare_exchange", "c08_store", "c08_swap", "c08_take_drop_from", "c08_new", "c10_iter_next_drop_abort"])
+              + _h("weak_h.rs", ["c05_weak_upgrade"])),
+    kani_flags=_FAST, loops=_STUTTER,
+    functions_under_contract=_L1_FUNCS + ["Rc::{new,clone,from_raw,into_raw,finalize,drop,downgrade,snapshot,as_ref,deref}", "Snapshot::counted", "Weak::upgrade",
+                                          "AtomicRc::{new,store,swap,compare_exchange,take,drop,from}", "NewRcIter::{next,drop,abort}"],
+    expected_obligations=["C01.lemma.owner_implies_alive", "C01.step.invariant_preserved", "C01.inc.owner_gains_exactly_one", "C01.dec.releases_exactly_count",
+                          "C05.upgrade.success_gains_exactly_one_owner", "C01.try_destruct.disposes_only_after_zero_observed_by_cas", "C01.rc_clone.exactly_one_increment",
+                          "C04.rc_drop.releases_exactly_one_share", "C08.cas.ownership_moves_without_count_change", "C01.rg.rely_transitive"],
+    trusted_base=[A_TOOLS, A_SC, A_RG, A_EBR, A_RANGE, A_ADDR, A_PARAM],
+    assumptions=[A_SC, A_RG, A_EBR, A_RANGE, "the protocol-level composition (every execution is an interleaving of steps each satisfying its guarantee) is the textbook R/G theorem, not mechanised"],
+    explanation="per-function rely/guarantee contracts on the real count-word functions + owner-ledger contracts of every API operation that creates or consumes an owner; the safety lemma O>0 => not destructed/dropped/freed is proved over the invariant",
+)
+PROPS["C03"] = dict(
+    title="a weak reference keeps the block allocated", level="proof",
+    modules=_MODS_ALL, contract_groups=["state", "modular"],
+    kani=dict(quick=_h(_RGF, _RG_LEMMAS + _RG_WEAK + ["rg_increment_strong_unguarded"]) + _h("utils_dispose_h.rs", ["dispose_chain_level", "dispose_leaf_any_depth"])
+              + _h("weak_h.rs", ["l2_weak_ledger", "c09_compare_exchange", "c09_load_store_swap", "c09_drop_from_get_mut", "c05_weak_upgrade", "c05_wsnap_upgrade"])
+              + _h("strong_h.rs", ["l2_rc_ledger", "c10_weak_many_1", "c10_weak_many_3"])),
+    kani_flags=_FAST, loops=_STUTTER,
+    functions_under_contract=_L1_FUNCS + ["Weak::{clone,drop,from_raw,into_raw,snapshot,upgrade}", "WeakSnapshot::{counted,upgrade}", "Rc::{downgrade,weak_many}", "AtomicWeak::{store,swap,compare_exchange,drop,from,get_mut}"],
+    expected_obligations=["C03.lemma.weak_owner_implies_allocated", "C03.step.no_access_after_free", "C03.incw.gains_exactly_count", "C03.decw.releases_exactly_one",
+                          "C03.try_dealloc.frees_only_at_zero", "C03.cascade.weaked_node_releases_implicit_share", "C03.weak_clone.exactly_one_weak_share", "C04.weak_drop.releases_exactly_one_share"],
+    trusted_base=[A_TOOLS, A_SC, A_RG, A_EBR, A_RANGE, A_ADDR, A_PARAM],
+    assumptions=[A_SC, A_RG, A_EBR + " - in particular: a WeakSnapshot's critical section blocks the deferred try_dealloc (PROTECTED rely), and try_dealloc runs when nobody can reach a block whose weak count is zero (QUIESCENT rely)", A_RANGE],
+)
+PROPS["C04"] = dict(
+    title="destructed once, freed once, nothing leaks", level="proof",
+    modules=_MODS_ALL, contract_groups=["state", "modular"],
+    kani=dict(quick=_h(_RGF, _RG_LEMMAS + _RG_STRONG + _RG_WEAK) + _h("utils_dispose_h.rs", _DISP_CORE)
+              + _h("strong_h.rs", ["l2_rc_ledger", "c08_take_drop_from", "c08_store", "c10_iter_next_drop_abort", "c10_new_many_0", "c10_new_many_iter"])
+              + _h("weak_h.rs", ["l2_weak_ledger", "c09_drop_from_get_mut", "c09_load_store_swap"])),
+    kani_flags=_FAST, loops=_STUTTER,
+    functions_under_contract=_L1_FUNCS + ["Drop for Rc/AtomicRc/Weak/AtomicWeak/NewRcIter", "Rc::finalize", "NewRcIter::abort", "AtomicRc::store", "AtomicWeak::store"],
+    expected_obligations=["C04.lemma.pop_edges_before_drop", "C04.lemma.zero_count_has_pending_attempt", "C04.lemma.zero_weak_has_pending_dealloc", "C04.dec.defers_try_destruct_iff_hit_zero",
+                          "C04.dec.pending_attempt_handed_to_ebr", "C04.try_destruct.exactly_one_outcome", "C04.free.at_most_once", "C04.cascade.pop_edges_then_drop_once_each",
+                          "C04.rc_drop.releases_exactly_one_share", "C04.weak_drop.releases_exactly_one_share", "C04.atomicrc_drop.releases_exactly_its_share", "C07.depth.cap_redefers_exactly_once"],
+    trusted_base=[A_TOOLS, A_SC, A_RG, A_EBR, A_RANGE, A_PARAM],
+    assumptions=[A_SC, A_RG, A_EBR, "liveness ('after a bounded number of rounds nothing is live') is reduced to the no-leak invariant at every function exit (zero count => exactly one pending attempt handed to EBR) plus A-EBR's 'every deferred closure runs'; 'eventually' itself is not decided", "acyclic use (the property's own premise)"],
+    explanation="safety half proved (once-only flags, order, exact release by every Drop, no-leak invariant at every exit); the liveness half is the stated composition with C15",
+)
+PROPS["C05"] = dict(
+    title="upgrade succeeds iff not destructed; never resurrects", level="proof",
+    modules=_MODS_ALL, contract_groups=["state", "modular"],
+    kani=dict(quick=_h(_RGF, _RG_LEMMAS + ["rg_increment_strong_unguarded", "rg_increment_strong_owner", "rg_is_not_destructed", "rg_try_destruct"])
+              + _h("utils_dispose_h.rs", ["dispose_chain_level", "dispose_leaf_any_depth"]) + _h("weak_h.rs", ["c05_weak_upgrade", "c05_wsnap_upgrade"])),
+    kani_flags=_FAST, loops=_STUTTER,
+    functions_under_contract=["RcInner::{increment_strong,is_not_destructed,try_destruct}", "dispose_general_node (DESTRUCTED set by CAS before destruction, roots and cascade children)", "Weak::upgrade", "WeakSnapshot::upgrade"],
+    expected_obligations=["C05.upgrade.success_only_if_not_destructed", "C05.upgrade.failure_only_if_destructed", "C05.upgrade.success_gains_exactly_one_owner",
+                          "C05.wsnap_upgrade.result_iff_not_destructed_at_lin_point", "C05.lemma.destruction_begun_implies_destructed", "C05.cascade.destructed_set_before_destruction",
+                          "C05.upgrade.null_upgrades_to_null", "C05.upgrade.some_iff_increment_succeeded", "C05.wsnap_upgrade.some_iff_not_destructed"],
+    trusted_base=[A_TOOLS, A_SC, A_RG, A_EBR, A_RANGE],
+    assumptions=[A_SC, A_RG, "'once failed, always fails' and 'succeeds while an owner exists' follow from DESTRUCTED being monotone under the rely and from lemma owner_implies_alive (both checked); the history-level statement is their composition"],
+)
+PROPS["C02"] = dict(
+    title="a Snapshot stays valid for its critical section", level="other",
+    modules=_MODS_ALL, contract_groups=["state", "modular"],
+    kani=dict(quick=_h(_RGF, ["rg_decrement_strong_noguard", "rg_decrement_strong_guard", "rg_is_not_destructed", "rg_try_destruct", "rg_increment_strong_protected"])
+              + _h("utils_dispose_h.rs", _DISP_CORE) + _h("utils_state_h.rs", ["c12_window_theorem", "c12_window_skew", "c12_modular_max3"])
+              + _h("strong_h.rs", ["c08_store", "c08_swap", "c08_compare_exchange", "c08_compare_exchange_weak", "c08_compare_exchange_tag", "c08_load"])
+              + _h("weak_h.rs", ["c05_wsnap_upgrade"])),
+    kani_flags=_FAST, loops=_STUTTER,
+    functions_under_contract=["RcInner::decrement_strong (stamp = epoch read before the CAS; zero => deferred try_destruct only)", "AtomicRc::{store,swap,compare_exchange*,compare_exchange_tag} (timestamp on every non-null write)",
+                              "dispose_general_node (child reclaimed in the same pass only if newest(parent,link,child) stamp is old enough; merged stamp written)", "RcInner::is_not_destructed (token by CAS from zero)", "Modular::{le,max}"],
+    expected_obligations=["C02.dec.stamp_is_epoch_read_before_cas", "C02.dec.never_destructs_directly", "C02.cascade.child_stamp_is_newest_of_parent_link_child", "C12.site.immediate_only_if_stamp_old_enough",
+                          "C02.cascade.recent_node_redeferred_exactly_once", "C02.wsnap_upgrade.token_added_when_zero", "C08.store.installs_ptr_tag_exact_timestamped", "C12.window.never_old_below_threshold"],
+    trusted_base=[A_TOOLS, A_SC, A_RG, A_EBR, "A-PAPER: the CIRC Snapshot-validity theorem (composition of the four stamp mechanisms over epochs and critical sections) is NOT decided here"],
+    assumptions=[A_SC, A_EBR, "A-PAPER (composition theorem of the CIRC paper)"],
+    explanation="The schedule-quantified statement is the CIRC paper's main theorem; no per-function contract composes it. Decided here, for all inputs, are the four facts that theorem consumes, each a postcondition on the real code: "
+                "(1) decrement stamps the epoch read before its CAS and never destructs directly; (2) every non-null write to an AtomicRc carries the current epoch; (3) the cascade reclaims a child immediately only if the newest of "
+                "(parent, link, child) stamps is >= 3 epochs old and writes the merged stamp, otherwise defers exactly once; (4) WeakSnapshot::upgrade adds the token by CAS from zero. A change weakening any of them fails a named obligation; "
+                "a protocol flaw that keeps all four contracts intact is outside this check.",
+)
+PROPS["C06"] = dict(
+    title="reclaiming a linked structure needs grace periods independent of its length", level="proof",
+    modules=["utils_state_h.rs", "utils_dispose_h.rs", "internal_h.rs"], contract_groups=["state", "modular"],
+    kani=dict(quick=_h("utils_dispose_h.rs", _DISP_CORE + ["c06_chain_induction_step"]) + _h("utils_state_h.rs", ["c12_window_theorem", "c12_modular_max3"])),
+    kani_flags=_FAST, loops=_STUTTER + "; recursion of dispose_general_node: never unwound - cut by the code's own depth >= 1024 branch (chain node at depth 1023) and by a leaf at symbolic depth; the argument over chain length is the induction lemma c06_chain_induction_step",
+    functions_under_contract=["dispose_general_node", "dispose", "Modular::{le,max}"],
+    expected_obligations=["C06.cascade.zero_child_handled_in_same_pass_with_depth_plus_one", "C06.cascade.shared_child_skipped_and_survives", "C06.cascade.child_decremented_exactly_once",
+                          "C06.root.always_destructed_in_its_pass", "C06.induction.attempts_is_ceil_n_over_1024", "C06.dispose.enters_cascade_at_depth_zero", "C02.cascade.recent_node_redeferred_exactly_once"],
+    trusted_base=[A_TOOLS, A_SC, A_EBR, A_PARAM, "the one-level contract is proved at depth 1023 (chain) and at every depth (leaf); that the child-handling block does not depend on depth other than through `depth + 1` is what the two together establish for the monomorphic function"],
+    assumptions=["epochs-elapsed is not measured (no execution): only the structural reason for the bound is proved - every attempt destructs up to 1024 levels in one pass and leaves at most one deferred attempt, so n nodes cost ceil(n/1024) grace periods of A-EBR", "chains/trees: one outgoing edge per node in the chain harness (tree shapes: thorough tier)"],
+)
+PROPS["C07"] = dict(
+    title="destroying long or deep structures never overflows the stack", level="proof",
+    modules=["utils_state_h.rs", "utils_dispose_h.rs", "internal_h.rs"], contract_groups=["state", "modular"],
+    kani=dict(quick=_h("utils_dispose_h.rs", _DISP_CORE + ["c06_chain_induction_step"])),
+    kani_flags=_FAST, loops=_STUTTER,
+    functions_under_contract=["dispose_general_node", "dispose"],
+    expected_obligations=["C07.depth.cap_redefers_exactly_once", "C07.depth.cap_touches_nothing_else", "C07.depth.child_at_1024_not_destructed_here", "C06.cascade.zero_child_handled_in_same_pass_with_depth_plus_one", "C06.dispose.enters_cascade_at_depth_zero"],
+    trusted_base=[A_TOOLS, A_PARAM, "the translation '1025 frames of dispose_general_node fit every legal stack size' depends on frame size and user Drop/pop_edges code and is NOT decidable by contracts"],
+    assumptions=["recursion depth <= 1025 frames is proved (every call at depth >= 1024 returns without recursing, for every depth; the call at 1023 passes 1024; dispose enters at 0; the deferred closure is stored, not run); bytes of stack per frame are not"],
+)
+PROPS["C08"] = dict(
+    title="AtomicRc is a linearizable (pointer, tag) cell with exact ownership transfer", level="proof",
+    modules=["utils_rg_h.rs", "internal_h.rs", "strong_h.rs"], contract_groups=[],
+    kani=dict(quick=_h("strong_h.rs", _C08)),
+    kani_flags=_FAST, loops=_STUTTER,
+    functions_under_contract=["AtomicRc::{new,null,load,store,swap,compare_exchange,compare_exchange_weak,compare_exchange_tag,take,drop,from}", "Tagged<RcInner<T>>::with_timestamp"],
+    expected_obligations=["C08.cas.ok_only_if_cell_ptr_eq_expected", "C08.cas.err_only_if_not_ptr_eq_timestamp_never_fails", "C08.cas.ok_returns_previous_content", "C08.cas.err_returns_desired_untouched",
+                          "C08.cas.ok_installs_desired_tag_exact_timestamped", "C08.cas.ownership_moves_without_count_change", "C08.store.releases_exactly_old_content", "C08.swap.returns_previous_content",
+                          "C08.cas_tag.ok_writes_pointer_with_truncated_tag", "C08.load.returns_value_read_by_single_access", "C08.take.leaves_null"],
+    trusted_base=[A_TOOLS, A_SC, A_RG, A_ADDR, "linearizability from the per-operation contracts is the standard lemma 'an operation whose whole shared effect is one atomic RMW/load on one word and whose result is a function of that access's read value linearizes at that access' - stated, not mechanised"],
+    assumptions=["cell / expected / desired range over {null, A, B} x all 8 tags x all 16 timestamps, all epochs; environment interference on the link word between my accesses (budget B)", "compare_exchange_weak may fail spuriously: only Ok-side and ownership clauses are claimed for it"],
+)
+PROPS["C09"] = dict(
+    title="AtomicWeak is a linearizable (pointer, tag) cell with exact ownership transfer", level="proof",
+    modules=["utils_rg_h.rs", "internal_h.rs", "weak_h.rs"], contract_groups=[],
+    kani=dict(quick=_h("weak_h.rs", _C09)),
+    kani_flags=_FAST, loops=_STUTTER,
+    functions_under_contract=["AtomicWeak::{null,load,store,swap,compare_exchange,compare_exchange_weak,compare_exchange_tag,get_mut,drop,from}"],
+    expected_obligations=["C09.cas.ok_only_if_cell_ptr_eq_expected", "C09.cas.err_only_if_not_ptr_eq_epoch_bits_invisible", "C09.cas.ok_returns_previous_content", "C09.cas.err_returns_desired_untouched",
+                          "C09.cas.weak_counts_transferred_without_change", "C09.cas_tag.err_only_if_not_ptr_eq", "C09.store.releases_exactly_old_content", "C09.swap.returns_previous_content"],
+    trusted_base=[A_TOOLS, A_SC, A_RG, A_ADDR, "single-RMW linearizability lemma (as C08)"],
+    assumptions=["expected ranges over every word of the pool including every epoch-bit pattern (covers: loaded from the cell, downgraded from a Snapshot loaded at another epoch, taken from a Weak)"],
+)
+PROPS["C10"] = dict(
+    title="bulk constructors hand out exactly the advertised number of owners", level="proof",
+    modules=["utils_rg_h.rs", "internal_h.rs", "strong_h.rs"], contract_groups=[],
+    kani=dict(quick=_h("strong_h.rs", _C10) + _h(_RGF, ["rg_alloc", "rg_increment_weak_owner"])),
+    kani_flags=_FAST,
+    loops="new_many / weak_many array construction: N in {0,1,2,3,8} fully unwound (unwind 10, assertions on); NewRcIter::next/drop/abort are loop-free over symbolic `remain` (every prefix and count follow by induction on calls)",
+    functions_under_contract=["Rc::{new_many,new_many_iter,weak_many}", "NewRcIter::{next,abort,drop}", "RcInner::alloc", "RcInner::increment_weak"],
+    expected_obligations=["C10.new_many.exactly_n_owners", "C10.new_many.zero_owners_object_released", "C10.new_many_iter.count_owners_all_unyielded", "C10.new_many_iter.zero_owners_object_released",
+                          "C10.iter_next.yields_one_share", "C10.iter_drop.releases_exactly_remainder", "C10.iter_abort.releases_exactly_remainder_once", "C10.weak_many.adds_exactly_n_weak_shares",
+                          "C10.weak_many.every_result_refers_to_receiver", "C10.alloc.word"],
+    trusted_base=[A_TOOLS, A_RANGE, "'destructed when and only when the last owner is gone' is C01 + C04 applied to O = N"],
+    assumptions=[A_RANGE + " (count as u32 truncation above 2^32 is an unchecked assumption, not proved harmless)", "N ranges over the enumerated set {0,1,2,3,8}; count/remain are symbolic"],
+)
+PROPS["C19"] = dict(
+    title="Eq/Ord/Hash of Rc and Snapshot follow the referent", level="proof",
+    modules=["utils_rg_h.rs", "internal_h.rs", "strong_h.rs"], contract_groups=[],
+    kani=dict(quick=_h("strong_h.rs", _C19)),
+    kani_flags=_FAST,
+    loops="hashing writes <= 24 bytes into the recording Hasher: unwound 26 with unwinding assertions on => complete",
+    functions_under_contract=["PartialEq/Eq/PartialOrd/Ord/Hash for Rc<T>", "PartialEq/Eq/PartialOrd/Ord/Hash for Snapshot<T>", "Rc::ptr_eq", "Snapshot::ptr_eq", "Rc::as_ref", "Snapshot::as_ref"],
+    expected_obligations=["C19.eq.agrees_with_referent", "C19.cmp.agrees_with_referent", "C19.partial_cmp.agrees_with_referent", "C19.hash.same_stream_as_referent", "C19.null.distinct_and_smallest",
+                          "C19.ptr_eq.identity_plus_tag", "C19.law.antisymmetric", "C19.law.transitive", "C19.law.equal_implies_equal_hash"],
+    trusted_base=[A_TOOLS, A_ADDR, "one payload type (u8 field, derived Eq/Ord/Hash) stands for every T by parametricity"],
+    assumptions=["pointers range over {null, A, B} x all tags x all timestamps with symbolic payloads"],
+)
+# C11 and C12 gain the wrappers / the decision site
+PROPS["C11"]["modules"] = ["pointers_h.rs", "utils_rg_h.rs", "internal_h.rs", "strong_h.rs", "weak_h.rs"]
+PROPS["C11"]["kani"]["quick"] += _h("strong_h.rs", ["c11_rc_snapshot_tags", "l2_rc_new_deref"]) + _h("weak_h.rs", ["c11_weak_tags"])
+PROPS["C11"]["functions_under_contract"] += ["Rc/Snapshot/Weak/WeakSnapshot::{tag,with_tag,is_null,ptr_eq}", "Rc/Snapshot::as_ref"]
+PROPS["C11"]["expected_obligations"] += ["C11.rc.with_tag_truncates_keeps_address_and_timestamp", "C11.weak.with_tag_truncates_keeps_address_and_timestamp", "C11.rc_as_ref.ignores_tag_and_timestamp"]
+PROPS["C11"]["assumptions"] += ["pointer formatting ({:p}): the impls are the one-liner Pointer::fmt(&self.as_raw(), f), whose argument is covered by the as_raw contract; core::fmt itself is not taken through CBMC"]
+PROPS["C12"]["modules"] = ["utils_state_h.rs", "utils_dispose_h.rs", "internal_h.rs"]
+PROPS["C12"]["kani"]["quick"] += _h("utils_dispose_h.rs", ["dispose_chain_level", "dispose_leaf_any_depth"])
+PROPS["C12"]["fast_harnesses"] = _h("utils_dispose_h.rs", ["dispose_chain_level", "dispose_leaf_any_depth"])
+PROPS["C12"]["expected_obligations"] += ["C12.site.immediate_only_if_stamp_old_enough", "C12.site.recent_only_if_stamp_not_old_enough", "C02.cascade.child_stamp_is_newest_of_parent_link_child"]
+PROPS["C12"]["functions_under_contract"] += ["dispose_general_node (decision site)"]
+
+DEV = ("RG", "L2S", "L2W", "DISP")
